@@ -160,3 +160,17 @@ Proof.
   split; auto. split; auto.
   exact (run_sparse_ok_solved_R (BiCG itol) s b x0 max tol k x g Hwf H').
 Qed.
+
+(* symmetric storage, not necessarily definite: CG breaks down (a panic of the exact model) or answers Ok within n iterations *)
+Theorem cg_no_breakdown_terminates_sparse_R (s : sparse AR) (b x0 : list R) max tol res x g :
+  wfS s -> sp_symmetric s -> 0 <= tol -> (sp_rows s <= max)%nat ->
+  @run_sparse SAR CG s b x0 max tol = Ok (res, x, g) ->
+  exists k, res = IOk k /\ (k <= sp_rows s)%nat.
+Proof.
+  intros Hwf Hsym Htol Hmax H.
+  destruct (@run_sparse_square SAR CG s b x0 max tol _ H) as (Hsq & Hb & Hx0).
+  pose proof (sp_mul_LinOp AR_RingLaws s (sp_rows s) Hwf eq_refl (eq_sym Hsq)) as LO.
+  pose proof (sp_mul_SymOp AR_RingLaws s (sp_rows s) Hwf eq_refl (eq_sym Hsq) Hsym) as SYM.
+  unfold run_sparse in H. cbn [run] in H.
+  exact (cg_no_breakdown_terminates_R (sp_rows s) (@sp_mul AR s) LO SYM (sp_cols s) b x0 max tol res x g Htol Hmax H).
+Qed.
